@@ -58,3 +58,18 @@ pub proof fn lemma_filter_sub<T>(s: Seq<T>, keep: spec_fn(T) -> bool)
         }
     }
 }
+
+// make_contiguous: the same elements as one mutable slice (prophecy-style: the deque ends up as the slice ends up)
+pub assume_specification<T, A: core::alloc::Allocator> [VecDeque::<T, A>::make_contiguous] (v: &mut VecDeque<T, A>) -> (r: &mut [T])
+    ensures r@ == old(v)@, final(v)@ == final(r)@;
+
+// slice sorts: the result is a permutation of the input.  (Sortedness / stability are not stated: no
+// extracted function depends on them; a caller that needs more will fail, not pass.)
+pub assume_specification<T, K: Ord, F: FnMut(&T) -> K> [<[T]>::sort_unstable_by_key] (s: &mut [T], f: F)
+    ensures final(s)@.to_multiset() == old(s)@.to_multiset();
+pub assume_specification<T, K: Ord, F: FnMut(&T) -> K> [<[T]>::sort_by_key] (s: &mut [T], f: F)
+    ensures final(s)@.to_multiset() == old(s)@.to_multiset();
+pub assume_specification<T, F: FnMut(&T, &T) -> Ordering> [<[T]>::sort_by] (s: &mut [T], f: F)
+    ensures final(s)@.to_multiset() == old(s)@.to_multiset();
+pub assume_specification<T, F: FnMut(&T, &T) -> Ordering> [<[T]>::sort_unstable_by] (s: &mut [T], f: F)
+    ensures final(s)@.to_multiset() == old(s)@.to_multiset();
